@@ -133,6 +133,22 @@ def gen_cases(ctx, rng):
         cases.append({"dir": rng.choice(["upstream", "downstream"]), "chain": chain, "src": src, "ops": ops, "interrupted": True,
                       "horizon": 3600 * 1000 * L.MS, "seed": 6500 + i})
         stats["interrupted"] += 1
+    # the delay raised (or lowered) by an update after the slicer has already carried data, then more data on the same connection: the
+    # pieces cut afterwards are spaced by the NEW delay
+    stats["delay_updated"] = 0
+    for i in range(16 if ctx.tier == "quick" else 400):
+        a = rng.choice([10, 50])
+        d1, d2 = rng.choice([(100, 20000), (1000, 40000), (30000, 500)])
+        chain = [L.tx("slicer", name="s", average_size=a, size_variation=0, delay=d1)]
+        n1, n2 = rng.range(2 * a, 8 * a), rng.range(3 * a, 10 * a)
+        t1 = 1 * L.MS
+        tu = t1 + (n1 // a + 3) * d1 * 1000 + 5 * L.MS + 333
+        t2 = tu + 2 * L.MS
+        src = [{"at": t1, "n": n1}, {"at": t2, "n": n2}, {"at": t2 + (n2 // a + 5) * max(d1, d2) * 1000 + 50 * L.MS, "close": True}]
+        cases.append({"dir": rng.choice(["upstream", "downstream"]), "chain": chain, "src": src,
+                      "ops": [{"at": tu, "op": "update", "name": "s", "body": '{"attributes": {"delay": %d}}' % d2}],
+                      "horizon": 3600 * 1000 * L.MS, "seed": 8500 + i, "delay_updated": {"at": tu, "delay": d2, "first": n1}})
+        stats["delay_updated"] += 1
     # several connections through the same slicer at once (one toxic object serves every link of the proxy), their packets overlapping in
     # time and differing in length: each connection's stream is cut on its own
     stats["shared_by_connections"] = 0
@@ -164,6 +180,14 @@ def oracle(case, res):
     sent = sum(e.get("n", 0) for e in case["src"])
     if res["total"] != sent:
         return "receiver got %d of %d bytes" % (res["total"], sent)
+    du = case.get("delay_updated")
+    if du:
+        ws = res["writes"] or []
+        later = [w for w in ws if w["t"] > du["at"]]
+        for x, y in zip(later, later[1:]):
+            if y["t"] - x["t"] < du["delay"] * 1000:
+                return "pieces %d ns apart after the delay was updated to %d us (the update does not take effect on the pacing)" % (y["t"] - x["t"], du["delay"])
+        return None
     sls = [t for t in case["chain"] if t["type"] == "slicer"]
     if not sls or case.get("interrupted"):
         return None                          # interrupted runs: content and completeness only (the remainder is flushed as one piece)
